@@ -103,6 +103,14 @@ def run_verus_unit(unit, tier, seed):
         rt = fut_twin.result(); rt["path"] = twin_path
     fn_locs = [(f["name"], f["head"]) for f in built["fns"] if not f.get("is_type")]
     failures, undecided = verus.classify(r, built["text"], built["labels"], fn_locs)
+    # a query that runs out of its resource limit is retried with a much larger one (other seeds) before it counts as undecided
+    for boost, s in ((5, 3), (20, 11)):
+        if not any("resource limit" in u.lower() or "rlimit" in u.lower() for u in undecided):
+            break
+        r = verus.run(path, rlimit * boost, (seed or 0) + s, 16)
+        r["path"] = path
+        failures, undecided = verus.classify(r, built["text"], built["labels"], fn_locs)
+        res["rlimit_retries"] = res.get("rlimit_retries", 0) + 1
     res["cmd"] = r["cmd"]
     res["smt"] = verus.smt_summary(r["stats"])
     # stability: a failure only counts if it also fails on two more seeds at doubled rlimit
